@@ -1473,6 +1473,405 @@ Section MixtureSpec2.
   Qed.
 End MixtureSpec2.
 
+(* ---- group_empty_modes, as a recursion over the state with a pending-skip counter ---- *)
+Fixpoint ge_rec (i k : nat) (l : list Z) : list (nat * nat) * list nat :=
+  match l with
+  | [] => ([], [])
+  | x :: l' =>
+      match k with
+      | S k' => ge_rec (S i) k' l'
+      | O =>
+          match l' with
+          | [] => ([], [])
+          | y :: _ =>
+              if Z.eqb x 0 then
+                if Z.ltb 0 y then ge_rec (S i) 0 l'
+                else let n := zrun (x :: l') in
+                     let r := ge_rec (S i) (n - 1) l' in
+                     ((i, n) :: fst r, seq (S i) (n - 1) ++ snd r)
+              else ge_rec (S i) 0 l'
+          end
+      end
+  end.
+
+Definition ge_step (st : state) (acc : list (nat * nat) * list nat) (i : nat) : list (nat * nat) * list nat :=
+  let (tg, ts) := acc in
+  if existsb (Nat.eqb i) ts || Nat.eqb (S i) (length st) then acc
+  else if Z.eqb (nth i st 1%Z) 0 then
+         if Z.ltb 0 (nth (S i) st 0%Z) then acc
+         else let n := zrun (skipn i st) in (tg ++ [(i, n)], ts ++ seq (S i) (n - 1))
+       else acc.
+
+Lemma group_empty_unfold st : group_empty st = fold_left (ge_step st) (seq 0 (length st)) ([], []).
+Proof. reflexivity. Qed.
+
+Lemma skipn_cons_inv {X} i (st : list X) x l :
+  skipn i st = x :: l -> skipn (S i) st = l /\ (forall d, nth i st d = x) /\ length st = (i + S (length l))%nat.
+Proof.
+  revert st; induction i as [|i IH]; intros st H.
+  - simpl in H. subst st. simpl. auto.
+  - destruct st as [|y st]; [discriminate|]. simpl in H. destruct (IH st H) as (A & B & C).
+    repeat split; [exact A|exact B|simpl; lia].
+Qed.
+
+Lemma existsb_nat_In i l : existsb (Nat.eqb i) l = true <-> In i l.
+Proof.
+  rewrite existsb_exists. split.
+  - intros (x & Hx & E). apply Nat.eqb_eq in E. subst. exact Hx.
+  - intros H. exists i. split; [exact H|apply Nat.eqb_refl].
+Qed.
+
+Lemma ge_fold st : forall l i k tg old,
+  skipn i st = l -> (forall x, In x old -> (x < i)%nat) ->
+  fold_left (ge_step st) (seq i (length l)) (tg, old ++ seq i k)
+  = (tg ++ fst (ge_rec i k l), (old ++ seq i k) ++ snd (ge_rec i k l)).
+Proof.
+  induction l as [|x l IH]; intros i k tg old Hl Hold.
+  - simpl. rewrite !app_nil_r. reflexivity.
+  - destruct (skipn_cons_inv _ _ _ _ Hl) as (Hl' & Hn & Hlen).
+    cbn [length seq fold_left].
+    destruct k as [|k].
+    + (* not pending *)
+      assert (Ex : existsb (Nat.eqb i) (old ++ seq i 0) = false).
+      { destruct (existsb (Nat.eqb i) (old ++ seq i 0)) eqn:E; [|reflexivity].
+        apply existsb_nat_In in E. simpl in E. rewrite app_nil_r in E. apply Hold in E. lia. }
+      unfold ge_step at 2. rewrite Ex. cbn [orb].
+      destruct l as [|y l].
+      * assert (E1 : Nat.eqb (S i) (length st) = true) by (apply Nat.eqb_eq; simpl in Hlen; lia).
+        rewrite E1. simpl. rewrite !app_nil_r. reflexivity.
+      * assert (E1 : Nat.eqb (S i) (length st) = false) by (apply Nat.eqb_neq; simpl in Hlen; lia).
+        rewrite E1, (Hn 1%Z).
+        destruct (skipn_cons_inv _ _ _ _ Hl') as (_ & Hn' & _). rewrite (Hn' 0%Z).
+        cbn [ge_rec]. destruct (Z.eqb x 0).
+        -- destruct (Z.ltb 0 y).
+           ++ specialize (IH (S i) 0%nat tg old Hl' (fun z Hz => Nat.lt_lt_succ_r _ _ (Hold z Hz))).
+              simpl in IH. simpl. exact IH.
+           ++ rewrite Hl. set (n := zrun (x :: y :: l)).
+              specialize (IH (S i) (n - 1)%nat (tg ++ [(i, n)]) old Hl' (fun z Hz => Nat.lt_lt_succ_r _ _ (Hold z Hz))).
+              cbn [seq] in *. rewrite app_nil_r. rewrite IH. cbn [fst snd].
+              rewrite <- !app_assoc. reflexivity.
+        -- specialize (IH (S i) 0%nat tg old Hl' (fun z Hz => Nat.lt_lt_succ_r _ _ (Hold z Hz))).
+           simpl in IH. simpl. exact IH.
+    + (* pending skip *)
+      assert (Ex : existsb (Nat.eqb i) (old ++ seq i (S k)) = true).
+      { apply existsb_nat_In. apply in_or_app. right. simpl. left. reflexivity. }
+      unfold ge_step at 2. rewrite Ex. cbn [orb ge_rec].
+      specialize (IH (S i) k tg (old ++ [i]) Hl').
+      replace (old ++ seq i (S k)) with ((old ++ [i]) ++ seq (S i) k) by (rewrite <- app_assoc; reflexivity).
+      apply IH. intros z Hz. apply in_app_or in Hz as [Hz|[<-|[]]]; [apply Hold in Hz|]; lia.
+Qed.
+
+Lemma group_empty_rec st : group_empty st = ge_rec 0 0 st.
+Proof.
+  rewrite group_empty_unfold.
+  pose proof (ge_fold st st 0%nat 0%nat [] [] eq_refl (fun x (H : In x []) => match H with end)) as H.
+  simpl in H. rewrite H. destruct (ge_rec 0 0 st). reflexivity.
+Qed.
+
+Lemma ge_rec_bounds l : forall i k,
+  (forall j g, In (j, g) (fst (ge_rec i k l)) -> (i <= j)%nat) /\
+  (forall x, In x (snd (ge_rec i k l)) -> (i < x)%nat).
+Proof.
+  induction l as [|x l IH]; intros i k; cbn [ge_rec]; [split; intros; contradiction|].
+  destruct k as [|k].
+  - destruct l as [|y l]; [split; intros; contradiction|].
+    destruct (Z.eqb x 0).
+    + destruct (Z.ltb 0 y).
+      * destruct (IH (S i) 0%nat) as [A B]. split; [intros j g H; specialize (A j g H); lia|intros z H; specialize (B z H); lia].
+      * generalize (zrun (x :: y :: l)). intros n.
+        destruct (IH (S i) (n - 1)%nat) as [A B]. cbn [fst snd]. split.
+        -- intros j g [H|H]; [injection H as <- _; lia|specialize (A j g H); lia].
+        -- intros z H. apply in_app_or in H as [H|H]; [apply in_seq in H; lia|specialize (B z H); lia].
+    + destruct (IH (S i) 0%nat) as [A B]. split; [intros j g H; specialize (A j g H); lia|intros z H; specialize (B z H); lia].
+  - destruct (IH (S i) k) as [A B]. split; [intros j g H; specialize (A j g H); lia|intros z H; specialize (B z H); lia].
+Qed.
+
+Lemma zrun_split l : l = repeat 0%Z (zrun l) ++ skipn (zrun l) l.
+Proof.
+  induction l as [|x l IH]; simpl; [reflexivity|].
+  destruct (Z.eqb_spec x 0) as [->|Hne]; simpl; [f_equal; exact IH|reflexivity].
+Qed.
+
+Lemma lookup_nat_app_skip tgb rest i :
+  (forall j g, In (j, g) tgb -> (j < i)%nat) -> lookup_nat (tgb ++ rest) i = lookup_nat rest i.
+Proof.
+  induction tgb as [|[j g] tgb IH]; intros H; simpl; [reflexivity|].
+  destruct (Nat.eqb_spec j i) as [->|Hne].
+  - specialize (H i g (or_introl eq_refl)). lia.
+  - apply IH. intros j' g' H'. apply (H j' g'). right. exact H'.
+Qed.
+
+Lemma lookup_nat_none tg i : (forall j g, In (j, g) tg -> j <> i) -> lookup_nat tg i = None.
+Proof.
+  induction tg as [|[j g] tg IH]; intros H; simpl; [reflexivity|].
+  destruct (Nat.eqb_spec j i) as [->|Hne].
+  - specialize (H i g (or_introl eq_refl)). congruence.
+  - apply IH. intros j' g' H'. apply (H j' g'). right. exact H'.
+Qed.
+
+Lemma ge_rec_skip i k x l : ge_rec i (S k) (x :: l) = ge_rec (S i) k l.
+Proof. reflexivity. Qed.
+
+Lemma ge_rec_last i x : ge_rec i 0 [x] = ([], []).
+Proof. reflexivity. Qed.
+
+Lemma ge_rec_group i y l :
+  Z.ltb 0 y = false ->
+  ge_rec i 0 (0%Z :: y :: l)
+  = ((i, zrun (0%Z :: y :: l)) :: fst (ge_rec (S i) (zrun (0%Z :: y :: l) - 1) (y :: l)),
+     seq (S i) (zrun (0%Z :: y :: l) - 1) ++ snd (ge_rec (S i) (zrun (0%Z :: y :: l) - 1) (y :: l))).
+Proof. intros H. simpl. rewrite H. reflexivity. Qed.
+
+Lemma ge_rec_plain i x y l :
+  Z.eqb x 0 && negb (Z.ltb 0 y) = false -> ge_rec i 0 (x :: y :: l) = ge_rec (S i) 0 (y :: l).
+Proof.
+  intros H. simpl. destruct (Z.eqb x 0); [|reflexivity]. simpl in H. apply negb_false_iff in H. rewrite H. reflexivity.
+Qed.
+
+Section GroupMix.
+  Context {K : Type} {o : ops K} {SR : StarRing o}.
+  Let R := sr_ring (o:=o).
+  Add Ring Kr10 : R.
+  Local Notation "0" := (k0 o).
+  Local Notation "1" := (k1 o).
+  Local Notation "a + b" := (kadd o a b).
+  Local Notation "a * b" := (kmul o a b).
+
+  Variables nu p_i p2 : K.
+  Hypothesis Hfilter : filter_sound (o:=o) nu p_i p2.
+
+  Definition norm_dist (dist : list (astate * K)) : list (astate * K) :=
+    match dist with [] => [([], 1)] | _ => dist end.
+
+  Lemma an_make_repeat_nil n : an_make (repeat [] n) = repeat [] n.
+  Proof. unfold an_make. induction n as [|n IH]; simpl; [reflexivity|]. rewrite IH. reflexivity. Qed.
+
+  Lemma state_outcomes_zeros n rest cnt (G : list (list Z) -> K) :
+    wsum o (state_outcomes o nu p_i p2 (repeat 0%Z n ++ rest) cnt) G
+    = wsum o (state_outcomes o nu p_i p2 rest cnt) (fun r => G (repeat [] n ++ r)).
+  Proof.
+    revert G; induction n as [|n IH]; intros G; [reflexivity|].
+    cbn [repeat app]. rewrite wsum_state_outcomes_cons. change (Z.to_nat 0) with 0%nat.
+    cbn [mode_outcomes]. rewrite wsum_single.
+    replace (cnt + 2 * Z.of_nat 0)%Z with cnt by lia. rewrite IH. reflexivity.
+  Qed.
+
+  (* one non-grouped mode *)
+  Lemma single_step_spec dist cnt x (G : astate -> K) :
+    (0 <= x)%Z -> (dist = [] \/ inv (o:=o) (dist, cnt)) ->
+    let calc := fst (single_mode o nu p_i p2 x cnt) in
+    let dist' := match dist with [] => calc | _ => dist_product o dist calc end in
+    inv (o:=o) (dist', (cnt + 2 * Z.of_nat (Z.to_nat x))%Z) /\
+    wsum o dist' G = wsum o (norm_dist dist)
+                          (fun a => wsum o (mode_outcomes o nu p_i p2 (Z.to_nat x) cnt) (fun m => G (a ++ an_make [m]))).
+  Proof.
+    intros Hx Hd calc dist'.
+    pose proof (single_mode_total nu p_i p2 Hfilter x cnt Hx) as T'.
+    pose proof (single_mode_wf (o:=o) nu p_i p2 x cnt) as W'.
+    pose proof (fun F => single_mode_spec nu p_i p2 Hfilter x cnt F Hx) as S'.
+    fold calc in T', W', S'.
+    destruct dist as [|e dist].
+    - subst dist'. split; [split; assumption|]. cbn [norm_dist]. rewrite wsum_single. rewrite S'. reflexivity.
+    - destruct Hd as [Hd|[W T]]; [discriminate|]. cbn [fst] in W, T.
+      subst dist'. rewrite (dist_product_spec (o:=o) _ _ W W'). split.
+      + split; cbn [fst]; [apply plist_wf; assumption|]. rewrite plist_total, T, T'. ring.
+      + cbn [norm_dist]. rewrite wsum_plist. apply wsum_ext. intros a _. rewrite S'. reflexivity.
+  Qed.
+
+  (* a grouped run of n empty modes *)
+  Lemma group_step_spec' dist cnt n (G : astate -> K) :
+    (dist = [] \/ inv (o:=o) (dist, cnt)) ->
+    let dist' := match dist with
+                 | [] => [(empties n, 1)]
+                 | _ => fold_left (fun d e => dset an_eqb d (an_add (fst e) (empties n)) (snd e)) dist []
+                 end in
+    inv (o:=o) (dist', cnt) /\ wsum o dist' G = wsum o (norm_dist dist) (fun a => G (a ++ repeat [] n)).
+  Proof.
+    intros Hd dist'. destruct dist as [|e dist].
+    - subst dist'. split.
+      + apply single_wf. unfold empties. apply an_make_idem.
+      + cbn [norm_dist]. rewrite !wsum_single. rewrite empties_eq. reflexivity.
+    - destruct Hd as [Hd|[W T]]; [discriminate|]. cbn [fst] in W, T.
+      subst dist'. rewrite (group_step_spec _ n W). split.
+      + split; cbn [fst]; [apply glist_wf; exact W|rewrite glist_total; exact T].
+      + cbn [norm_dist]. unfold glist. rewrite wsum_map. reflexivity.
+  Qed.
+
+  Lemma inv_norm dist cnt (X Y : K) : inv (o:=o) (dist, cnt) -> (dist <> [] -> X = Y) -> X = Y.
+  Proof.
+    intros [_ T] H. destruct dist as [|e dist]; [|apply H; discriminate].
+    apply trivial_ring. rewrite <- T. reflexivity.
+  Qed.
+
+  Lemma full_step_skip_eq TG TS acc i x :
+    existsb (Nat.eqb i) TS = true -> full_step o nu p_i p2 TG TS acc (i, x) = acc.
+  Proof. intros H. unfold full_step. destruct acc. rewrite H. reflexivity. Qed.
+
+  Lemma full_step_group_eq TG TS dist cnt i x n :
+    existsb (Nat.eqb i) TS = false -> lookup_nat TG i = Some n ->
+    full_step o nu p_i p2 TG TS (dist, cnt) (i, x)
+    = (match dist with
+       | [] => [(empties n, 1)]
+       | _ => fold_left (fun d e => dset an_eqb d (an_add (fst e) (empties n)) (snd e)) dist []
+       end, cnt).
+  Proof. intros H1 H2. unfold full_step. rewrite H1, H2. reflexivity. Qed.
+
+  Lemma full_step_plain_eq TG TS dist cnt i x :
+    existsb (Nat.eqb i) TS = false -> lookup_nat TG i = None ->
+    full_step o nu p_i p2 TG TS (dist, cnt) (i, x)
+    = (match dist with
+       | [] => fst (single_mode o nu p_i p2 x cnt)
+       | _ => dist_product o dist (fst (single_mode o nu p_i p2 x cnt))
+       end, snd (single_mode o nu p_i p2 x cnt)).
+  Proof.
+    intros H1 H2. unfold full_step. rewrite H1, H2. destruct (single_mode o nu p_i p2 x cnt). reflexivity.
+  Qed.
+
+  Lemma full_fold_group l : forall i k tgb tsb TG TS dist cnt F,
+    TG = tgb ++ fst (ge_rec i k l) -> TS = tsb ++ seq i k ++ snd (ge_rec i k l) ->
+    (forall j g, In (j, g) tgb -> (j < i)%nat) -> (forall x, In x tsb -> (x < i)%nat) ->
+    Forall (fun n => (0 <= n)%Z) l -> firstn k l = repeat 0%Z k ->
+    ((dist = [] /\ k = 0%nat /\ l <> []) \/ inv (o:=o) (dist, cnt)) ->
+    wsum o (fst (fold_left (full_step o nu p_i p2 TG TS) (combine (seq i (length l)) l) (dist, cnt))) F
+    = wsum o (norm_dist dist)
+           (fun a => wsum o (state_outcomes o nu p_i p2 (skipn k l) cnt) (fun raw => F (a ++ an_make raw))).
+  Proof.
+    induction l as [|x l IH]; intros i k tgb tsb TG TS dist cnt F HTG HTS Htgb Htsb Hpos Hk Hd.
+    - destruct Hd as [(_ & _ & H)|Hd]; [congruence|].
+      cbn [length seq combine fold_left fst]. rewrite skipn_nil. cbn [state_outcomes].
+      apply (inv_norm dist cnt _ _ Hd). intros Hne. destruct dist as [|e dist]; [congruence|]. cbn [norm_dist].
+      apply wsum_ext. intros a _. rewrite wsum_single. unfold an_make. simpl. rewrite app_nil_r. reflexivity.
+    - apply Forall_cons_iff in Hpos as [Hx Hpos'].
+      cbn [length seq combine fold_left].
+      destruct k as [|k].
+      + (* mode i is not skipped *)
+        cbn [skipn].
+        assert (Hts : existsb (Nat.eqb i) (tsb ++ seq i 0 ++ snd (ge_rec i 0 (x :: l))) = false).
+        { destruct (existsb _ _) eqn:E; [|reflexivity]. apply existsb_nat_In in E.
+          apply in_app_or in E as [E|E]; [apply Htsb in E; lia|]. simpl in E.
+          apply (proj2 (ge_rec_bounds (x :: l) i 0%nat)) in E. lia. }
+        assert (Hd0 : dist = [] \/ inv (o:=o) (dist, cnt)) by (destruct Hd as [(H & _)|H]; auto).
+        (* is a group created at i ? *)
+        destruct l as [|y l'] eqn:El.
+        * (* last mode *)
+          rewrite ge_rec_last in HTG, HTS, Hts. cbn [fst snd] in HTG, HTS, Hts. cbn [length seq combine fold_left].
+          rewrite full_step_plain_eq;
+            [|rewrite HTS; exact Hts
+             |rewrite HTG, app_nil_r; apply lookup_nat_none; intros j g H; apply Htgb in H; lia].
+          pose proof (single_step_spec dist cnt x F Hx Hd0) as [_ S1]. cbn [fst].
+          rewrite S1. apply wsum_ext. intros a _. rewrite wsum_state_outcomes_cons.
+          apply wsum_ext. intros m _. cbn [state_outcomes]. rewrite wsum_single. reflexivity.
+        * destruct (Z.eqb x 0 && negb (Z.ltb 0 y)) eqn:Egrp.
+          -- (* a run of empty modes starts here *)
+             apply andb_true_iff in Egrp as [E0 E1]. apply negb_true_iff in E1.
+             apply Z.eqb_eq in E0. subst x.
+             rewrite (ge_rec_group i y l' E1) in HTG, HTS, Hts.
+             set (n := zrun (0%Z :: y :: l')) in *. cbn [fst snd seq app] in HTG, HTS, Hts.
+             rewrite (full_step_group_eq TG TS dist cnt i 0%Z n);
+               [|rewrite HTS; exact Hts
+                |rewrite HTG, lookup_nat_app_skip by exact Htgb; cbn [lookup_nat]; rewrite Nat.eqb_refl; reflexivity].
+             pose proof (fun G => group_step_spec' dist cnt n G Hd0) as G1. cbv zeta in G1.
+             set (dist' := match dist with [] => [(empties n, 1)] | _ => _ end) in *.
+             destruct (G1 F) as [I1 _].
+             assert (Hn : (1 <= n)%nat) by (unfold n; simpl; lia).
+             pose proof (zrun_split (0%Z :: y :: l')) as Hsplit. fold n in Hsplit.
+             assert (Hl' : y :: l' = repeat 0%Z (n - 1) ++ skipn n (0%Z :: y :: l')).
+             { destruct n as [|n']; [lia|]. simpl in Hsplit. injection Hsplit as Hsplit.
+               replace (S n' - 1)%nat with n' by lia. exact Hsplit. }
+             rewrite (IH (S i) (n - 1)%nat (tgb ++ [(i, n)]) tsb TG TS dist' cnt F).
+             ++ apply (inv_norm dist' cnt _ _ I1). intros Hne.
+                assert (Hnorm : norm_dist dist' = dist') by (destruct dist'; [congruence|reflexivity]).
+                rewrite Hnorm. rewrite (proj2 (G1 _)). apply wsum_ext. intros a _.
+                replace (state_outcomes o nu p_i p2 (0%Z :: y :: l') cnt)
+                  with (state_outcomes o nu p_i p2 (repeat 0%Z n ++ skipn n (0%Z :: y :: l')) cnt)
+                  by (rewrite <- Hsplit; reflexivity).
+                rewrite state_outcomes_zeros.
+                replace (skipn (n - 1) (y :: l')) with (skipn n (0%Z :: y :: l'))
+                  by (destruct n as [|n']; [lia|]; simpl; rewrite Nat.sub_0_r; reflexivity).
+                apply wsum_ext. intros r _. rewrite an_make_app, an_make_repeat_nil, app_assoc. reflexivity.
+             ++ rewrite HTG, <- app_assoc. reflexivity.
+             ++ rewrite HTS. reflexivity.
+             ++ intros j g H. apply in_app_or in H as [H|[H|[]]]; [apply Htgb in H; lia|injection H as <- _; lia].
+             ++ intros z H. apply Htsb in H. lia.
+             ++ exact Hpos'.
+             ++ rewrite Hl' at 1. rewrite firstn_app, repeat_length, Nat.sub_diag. simpl. rewrite app_nil_r.
+                apply firstn_all2. rewrite repeat_length. lia.
+             ++ right. exact I1.
+          -- (* an ordinary mode *)
+             rewrite (ge_rec_plain i x y l' Egrp) in HTG, HTS, Hts. cbn [seq app] in HTS, Hts.
+             rewrite (full_step_plain_eq TG TS dist cnt i x);
+               [|rewrite HTS; exact Hts
+                |rewrite HTG, lookup_nat_app_skip by exact Htgb; apply lookup_nat_none;
+                 intros j g H; apply (proj1 (ge_rec_bounds (y :: l') (S i) 0%nat)) in H; lia].
+             pose proof (fun G => single_step_spec dist cnt x G Hx Hd0) as S1. cbv zeta in S1.
+             rewrite (single_mode_cnt (o:=o) nu p_i p2 x cnt).
+             set (dist' := match dist with [] => fst (single_mode o nu p_i p2 x cnt) | _ => _ end) in *.
+             destruct (S1 F) as [I1 _].
+             rewrite (IH (S i) 0%nat tgb tsb TG TS dist' _ F).
+             ++ apply (inv_norm dist' _ _ _ I1). intros Hne.
+                assert (Hnorm : norm_dist dist' = dist') by (destruct dist'; [congruence|reflexivity]).
+                rewrite Hnorm. cbn [skipn]. rewrite (proj2 (S1 _)). apply wsum_ext. intros a _.
+                rewrite wsum_state_outcomes_cons. apply wsum_ext. intros m _. apply wsum_ext. intros r _.
+                rewrite <- app_assoc. reflexivity.
+             ++ exact HTG.
+             ++ exact HTS.
+             ++ intros j g H. apply Htgb in H. lia.
+             ++ intros z H. apply Htsb in H. lia.
+             ++ exact Hpos'.
+             ++ reflexivity.
+             ++ right. exact I1.
+      + (* mode i is skipped: it belongs to a run that was added as a group *)
+        cbn [firstn repeat] in Hk. injection Hk as -> Hk.
+        assert (Hd1 : inv (o:=o) (dist, cnt)) by (destruct Hd as [(_ & H & _)|H]; [discriminate|exact H]).
+        rewrite ge_rec_skip in HTG, HTS.
+        assert (Hts : existsb (Nat.eqb i) TS = true).
+        { apply existsb_nat_In. rewrite HTS. apply in_or_app. right. apply in_or_app. left. simpl. left. reflexivity. }
+        rewrite (full_step_skip_eq TG TS (dist, cnt) i 0%Z Hts). cbn [skipn].
+        apply (IH (S i) k tgb (tsb ++ [i]) TG TS dist cnt F); try assumption.
+        * rewrite HTS. cbn [seq]. rewrite <- !app_assoc. reflexivity.
+        * intros j g H. apply Htgb in H. lia.
+        * intros z H. apply in_app_or in H as [H|[<-|[]]]; [apply Htsb in H|]; lia.
+        * right. exact Hd1.
+  Qed.
+
+  (* independent per-photon outcomes, for EVERY input state *)
+  Lemma full_distribution_spec st F :
+    st <> [] -> Forall (fun n => (0 <= n)%Z) st ->
+    wsum o (full_distribution o nu p_i p2 st) F
+    = wsum o (state_outcomes o nu p_i p2 st 1%Z) (fun raw => F (an_make raw)).
+  Proof.
+    intros Hne Hpos. unfold full_distribution. rewrite group_empty_rec.
+    destruct (ge_rec 0 0 st) as [tg ts] eqn:E.
+    rewrite (full_fold_group st 0%nat 0%nat [] [] tg ts [] 1%Z F); try (rewrite E; reflexivity); try assumption.
+    - cbn [norm_dist skipn]. rewrite wsum_single. reflexivity.
+    - intros j g [].
+    - intros x [].
+    - reflexivity.
+    - left. auto.
+  Qed.
+End GroupMix.
+
+(* ---- the mixture specification, for every input state ---- *)
+Section MixtureSpecFull.
+  Context {K : Type} {o : ops K} {SR : StarRing o}.
+  Variables nu p_i p2 : K.
+  Hypothesis Hfilter : filter_sound (o:=o) nu p_i p2.
+  Variable D : state -> list (state * K).
+  Variable n_modes : nat.
+  Hypothesis HD : forall g, D g <> [].
+
+  Lemma mixture_spec st F :
+    st <> [] -> Forall (fun n => (0 <= n)%Z) st ->
+    wsum o (annotated_pdist o D n_modes (build_full o nu p_i p2 st)) F
+    = wsum o (state_outcomes o nu p_i p2 st 1%Z) (fun raw => outcome_output (o:=o) D n_modes raw F).
+  Proof.
+    intros Hne Hpos. rewrite annotated_pdist_spec. unfold build_full.
+    rewrite remap_spec, (full_distribution_spec nu p_i p2 Hfilter) by assumption.
+    apply wsum_ext. intros e _. rewrite combine_groups_spec by (intros; apply HD).
+    unfold outcome_output. rewrite decompose_relabel. reflexivity.
+  Qed.
+End MixtureSpecFull.
+
 (* ---- output normalisation ---- *)
 Section OutputNorm.
   Context {K : Type} {o : ops K} {SR : StarRing o}.
